@@ -109,6 +109,35 @@ func init() {
 					continue
 				}
 				fn := funcName(fd)
+				// which producer calls sit inside the BODY of an `if` whose condition mentions minVersion(N): a call in the
+				// init statement or the condition itself runs before the gate is evaluated
+				guard := map[*ast.CallExpr]string{}
+				var walk func(n ast.Node, g string)
+				walk = func(n ast.Node, g string) {
+					ast.Inspect(n, func(x ast.Node) bool {
+						switch t := x.(type) {
+						case *ast.IfStmt:
+							if t.Init != nil {
+								walk(t.Init, g)
+							}
+							walk(t.Cond, g)
+							g2 := g
+							ct := exprText(r.Fset, t.Cond)
+							if i := strings.Index(ct, "minVersion("); i >= 0 {
+								g2 = ct[i : i+strings.Index(ct[i:], ")")+1]
+							}
+							walk(t.Body, g2)
+							if t.Else != nil {
+								walk(t.Else, g)
+							}
+							return false
+						case *ast.CallExpr:
+							guard[t] = g
+						}
+						return true
+					})
+				}
+				walk(fd.Body, "")
 				ast.Inspect(fd.Body, func(n ast.Node) bool {
 					call, ok := n.(*ast.CallExpr)
 					if !ok {
@@ -121,11 +150,19 @@ func init() {
 					if strings.HasSuffix(ft, ".write") && len(call.Args) == 1 {
 						a := exprText(r.Fset, call.Args[0])
 						if a == "expBytes" || a == "optChainBytes" {
-							producers = append(producers, fmt.Sprintf("%s: write(%s)", fn, a))
+							g := guard[call]
+							if g == "" {
+								g = "no-gate"
+							}
+							producers = append(producers, fmt.Sprintf("%s: write(%s) inside %s", fn, a, g))
 						}
 					}
 					if ft == "toNullishExpr" {
-						producers = append(producers, fmt.Sprintf("%s: toNullishExpr", fn))
+						g := guard[call]
+						if g == "" {
+							g = "UNGUARDED"
+						}
+						producers = append(producers, fmt.Sprintf("%s: toNullishExpr inside %s", fn, g))
 					}
 					if ft == "minifyString" && len(call.Args) == 2 {
 						producers = append(producers, fmt.Sprintf("%s: minifyString allowTemplate=%s", fn, exprText(r.Fset, call.Args[1])))
